@@ -11,6 +11,7 @@ Record guardset := {
   g_antlr : bool;                 (* parseString: defer recover around the generated parser *)
   g_walk_specs : bool;            (* tree walk of the full parse runs under a recover *)
   g_walk_imports : bool;          (* tree walk of the import pre-parse runs under a recover *)
+  g_post : bool;                  (* lint + postProcess (finishModule) run under a recover *)
   err_parse_propagated : bool;    (* parseSpecs tests and returns every stage error *)
   err_collect_propagated : bool;  (* collectSpecs / parseImports / Parse test and return every stage error *)
   exit_uses_code : bool;          (* main2 takes the status from syslutil.Exit.Code *)
@@ -77,15 +78,16 @@ Definition to_obs (gs:guardset) (r:raw) : obsclass :=
   match r with ROk => OModel | RErr k => OError (code_of gs k) | RPanic => OCrash end.
 
 (* fs: the files of the closure in flatten order; post: lint + postProcess on the merged module *)
+Definition post_stage (gs:guardset) (post:raw) : raw := propagate (err_parse_propagated gs) (guard (g_post gs) post).
 Definition compile (gs:guardset) (fs:list fbehave) (post:raw) : obsclass :=
-  to_obs gs (andthen (collect_all gs fs) (andthen (seq_stage (parse_file gs) fs) post)).
+  to_obs gs (andthen (collect_all gs fs) (andthen (seq_stage (parse_file gs) fs) (post_stage gs post))).
 
 Definition all_guarded (gs:guardset) : bool :=
-  g_antlr gs && g_walk_specs gs && g_walk_imports gs && err_parse_propagated gs && err_collect_propagated gs &&
+  g_antlr gs && g_walk_specs gs && g_walk_imports gs && g_post gs && err_parse_propagated gs && err_collect_propagated gs &&
   exit_uses_code gs && negb (parse_error_code gs =? 0) && negb (import_error_code gs =? 0) && negb (default_exit_code gs =? 0).
 
-(* the stages that the repository does not run under a recover: they are assumed not to panic
-   (hypothesis of the theorem, monitored by the harness on every case) *)
+(* the stages that the repository does not run under a recover (file reader, foreign-format import): they are
+   assumed not to panic (hypothesis of the theorem, monitored by the harness on every case) *)
 Definition unguarded_stages_dont_panic (f:fbehave) : Prop := b_read f <> RPanic /\ b_foreign f <> RPanic.
 
 (* ---- closure cases of the harness: each file is good / has a parse-stage error / cannot be read ---- *)
